@@ -191,6 +191,37 @@ example : PairsWF 3 (fun i => if i < 2 then 1 else 5) (fun i => if i = 0 then 2 
   have : i = 0 ∨ i = 1 ∨ i = 2 := by omega
   rcases this with h | h | h <;> subst h <;> norm_num
 
+/-! ## trace and determinant are reproduced by the spectrum -/
+
+/-- **spectrum_trace_det.** If `A·V = V·D` with `D` the block-diagonal matrix that `getD` assembles
+from a well-formed `(d, e)`, and `V` is invertible, then `tr A = Σ d` and
+`det A = Π_blocks` (`d` per real eigenvalue, `d² + e²` per conjugate pair) — `spectrumSum` /
+`spectrumProd` are the definitions the driver evaluates on the implementation's lists. -/
+theorem spectrum_trace_det (n : Nat) (A V W : FMat ℝ) (d e : Nat → ℝ) (hwf : PairsWF n d e)
+    (hAV : toMatrix n A * toMatrix n V = toMatrix n V * toMatrix n (blockEntry d e))
+    (hVW : toMatrix n V * toMatrix n W = 1) :
+    Matrix.trace (toMatrix n A) = spectrumSum n d ∧ Matrix.det (toMatrix n A) = spectrumProd n d e := by
+  constructor
+  · rw [trace_of_similar _ _ _ _ hAV hVW, trace_blockEntry, spectrumSum_eq]
+  · rw [det_of_similar _ _ _ _ hAV hVW, det_blockEntry n d e hwf, spectrumProd_eq]
+
+/-- the determinant of `D` itself (no similarity needed): 2 × 2 blocks contribute `d² + e²` -/
+theorem getD_det (n : Nat) (d e : Nat → ℝ) (hwf : PairsWF n d e) :
+    Matrix.det (toMatrix n (blockEntry d e)) = spectrumProd n d e := by
+  rw [det_blockEntry n d e hwf, spectrumProd_eq]
+
+/-- for a real spectrum the block matrix is `diag d`, so `pow_glue`'s hypothesis is the special
+case `e = 0` of `spectrum_trace_det`'s -/
+theorem blockEntry_real (n : Nat) (d e : Nat → ℝ) (he : ∀ i, i < n → e i = 0) :
+    toMatrix n (blockEntry d e) = Matrix.diagonal (fun i : Fin n => d i) := by
+  ext i j
+  have h1 : ¬ 0 < e i := by rw [he i i.isLt]; exact lt_irrefl 0
+  have h2 : ¬ e i < 0 := by rw [he i i.isLt]; exact lt_irrefl 0
+  by_cases hij : i = j
+  · subst hij; simp [toMatrix, blockEntry]
+  · have : ¬ (j : Nat) = i := fun h => hij (Fin.ext h.symm)
+    simp [toMatrix, blockEntry, Matrix.diagonal_apply_ne _ hij, this, h1, h2]
+
 /-! ## pow(A, double) and exp(A) (MatrixTools.h:514-545): the wrappers are right *given* a
 correct decomposition and inverse -/
 
